@@ -204,6 +204,7 @@ pub async fn scenario(line: &str) -> String {
     "churn" => churn(&p).await,
     "fanin" => fanin(&p).await,
     "secure" => secure(&p).await,
+    "framewise" => framewise(&p).await,
     "bigmulti" => bigmulti(&p).await,
     "faultlocal" => faultlocal(&p).await,
     _ => "bad-op".to_string(),
@@ -1010,11 +1011,19 @@ async fn stream_inner(opts: HashMap<String, String>, scfg: HashMap<String, Strin
         idf.set_flags(rzmq::MsgFlags::MORE);
         frames.insert(0, idf);
       }
-      let r = if frames.len() == 1 && !matches!(sty.as_str(), "ROUTER") {
+      let mut r = if frames.len() == 1 && !matches!(sty.as_str(), "ROUTER") {
         snd2.send(frames.remove(0)).await
       } else {
-        snd2.send_multipart(frames).await
+        snd2.send_multipart(frames.clone()).await
       };
+      // a mandatory ROUTER refuses a peer whose identity it has not registered yet (that may lag behind the handshake
+      // event on a loaded host): a refusal is not an acceptance, try again for a while
+      let mut tries = 0;
+      while i == 0 && sty == "ROUTER" && matches!(r, Err(ZmqError::HostUnreachable(_))) && tries < 60 {
+        tokio::time::sleep(Duration::from_millis(50)).await;
+        r = snd2.send_multipart(frames.clone()).await;
+        tries += 1;
+      }
       match r {
         Ok(()) => accepted.push(i),
         Err(e) => return (accepted, Some(format!("send #{} {}", i, err_class(&e)))),
@@ -1686,7 +1695,15 @@ async fn hwm(p: &[&str]) -> String {
         }
       }
     } else {
-      match snd.send_multipart(frames).await {
+      let mut r = snd.send_multipart(frames.clone()).await;
+      let mut tries = 0;
+      while accepted == 0 && sty == "ROUTER" && matches!(r, Err(ZmqError::HostUnreachable(_))) && tries < 60 {
+        // the peer's identity is not registered yet (it may lag behind the handshake event on a loaded host)
+        tokio::time::sleep(Duration::from_millis(50)).await;
+        r = snd.send_multipart(frames.clone()).await;
+        tries += 1;
+      }
+      match r {
         Ok(()) => accepted += 1,
         Err(e @ ZmqError::ResourceLimitReached) | Err(e @ ZmqError::Timeout) => {
           let el = t0.elapsed();
@@ -2734,4 +2751,72 @@ async fn secure_session(mech: &str, keys: &SecKeys, sizes: &[usize], hb: i32, op
   let _ = tokio::time::timeout(Duration::from_secs(12), ctx.term()).await;
   proxy.abort();
   Ok(SecResult { delivered, damaged, leaked, records })
+}
+
+
+/// `framewise <sender type> <receiver type> <peers> <messages>`
+/// The sender is connected to `peers` receivers and sends `messages` three-frame messages FRAME BY FRAME with send()
+/// (MORE on all but the last). Every receiver must see only whole messages: frames `i.0 i.1 i.2` of one message together.
+async fn framewise(p: &[&str]) -> String {
+  let sty = p[1];
+  let rty = p[2];
+  let peers: usize = p[3].parse().unwrap();
+  let n: usize = p[4].parse().unwrap();
+  let ctx = Context::new().expect("ctx");
+  let snd = ctx.socket(socket_type(sty)).unwrap();
+  let _ = set_i32(&snd, o::SNDTIMEO, 2000).await;
+  if snd.bind("tcp://127.0.0.1:0").await.is_err() {
+    return "setup-error bind".into();
+  }
+  let ep = last_endpoint(&snd).await;
+  let mut rcvs = Vec::new();
+  for _ in 0..peers {
+    let r = ctx.socket(socket_type(rty)).unwrap();
+    let _ = set_i32(&r, o::RCVTIMEO, 700).await;
+    if r.connect(&ep).await.is_err() {
+      return "setup-error connect".into();
+    }
+    rcvs.push(r);
+  }
+  tokio::time::sleep(Duration::from_millis(300)).await;
+  for i in 0..n {
+    for k in 0..3u8 {
+      let mut m = Msg::from_vec(vec![i as u8, k]);
+      if k < 2 {
+        m.set_flags(rzmq::MsgFlags::MORE);
+      }
+      if let Err(e) = snd.send(m).await {
+        return format!("ORACLE-FAIL key=framewise-send send of frame {}.{} failed: {}", i, k, err_class(&e));
+      }
+    }
+  }
+  let mut whole = 0usize;
+  let mut problem: Option<String> = None;
+  for (ri, r) in rcvs.iter().enumerate() {
+    loop {
+      match r.recv_multipart().await {
+        Ok(frames) => {
+          let skip = if rty == "ROUTER" { 1 } else { 0 }; // the peer's identity comes first
+          let shape: Vec<(u8, u8)> = frames.iter().skip(skip).map(|f| { let b = f.data().unwrap_or(&[]); (b.first().copied().unwrap_or(255), b.get(1).copied().unwrap_or(255)) }).collect();
+          let ok = shape.len() == 3 && shape[0].1 == 0 && shape[1].1 == 1 && shape[2].1 == 2 && shape[0].0 == shape[1].0 && shape[1].0 == shape[2].0;
+          if ok {
+            whole += 1;
+          } else if problem.is_none() {
+            problem = Some(format!("receiver {} got the frames {:?} as one message", ri, shape));
+          }
+        }
+        Err(_) => break,
+      }
+    }
+  }
+  for r in &rcvs {
+    let _ = tokio::time::timeout(Duration::from_secs(3), r.close()).await;
+  }
+  let _ = tokio::time::timeout(Duration::from_secs(3), snd.close()).await;
+  let _ = tokio::time::timeout(Duration::from_secs(12), ctx.term()).await;
+  match problem {
+    Some(pr) => format!("ORACLE-FAIL key=framewise-torn {} ({} whole of {})", pr, whole, n),
+    None if whole == n => "framewise=ok".into(),
+    None => format!("ORACLE-FAIL key=framewise-lost {} whole messages of {}", whole, n),
+  }
 }
